@@ -57,6 +57,16 @@ def tie(ctx, broken):
             ctx.violate("population-accuracy:" + k, f"stratum '{k}': only {good}/{tot} problems within 1e-3 of the minimum (threshold {sthr:.0%}); "
                         f"failures: {[(r['i'], r['D'], r['fval']) for r in res if r['stratum'] == k and not (r['fval'] is not None and r['fval'] <= 1e-3)][:5]}",
                         dict(kind="quadpanel", n=n, seed=ctx.seed, stratum=k))
+    # ... and the speed clause per stratum (median evaluations-to-1e-2 <= 40*D; a run that never gets there counts as infinitely slow).
+    # The unchanged code sits around 0.3 in every stratum, so the property's own threshold 1.0 leaves a wide margin even for 5 problems.
+    spd = {}
+    for r in res:
+        spd.setdefault(r["stratum"], []).append(float("inf") if r["to_1e2"] is None else r["to_1e2"] / (40.0 * r["D"]))
+    ctx.coverage["population_panel"]["per_stratum_median_evals_to_1e2_over_40D"] = {k: (None if np.isinf(np.median(v)) else float(np.median(v))) for k, v in spd.items()}
+    for k, v in spd.items():
+        if np.median(v) > 1.0 and len(ok3) >= thr * n and not any(x["key"].startswith("population-accuracy") for x in ctx.violations):
+            ctx.violate("population-speed:" + k, f"stratum '{k}': median evaluations-to-1e-2 = {np.median(v):.2f} x 40*D (threshold 1); ratios {[round(x, 2) for x in v]}",
+                        dict(kind="quadpanel", n=n, seed=ctx.seed, stratum=k, clause="speed"))
     if not ctx.quick and (med is None or med > 1.0):
         ctx.violate("population-speed", f"panel median evaluations-to-1e-2 = {med} x 40*D (threshold 1)", dict(kind="quadpanel", n=n, seed=ctx.seed))
 
@@ -76,6 +86,10 @@ def replay(ctx, rp):
             res = list(ex.map(Qp.run_one, [(i, r["seed"]) for i in range(r["n"])]))
         if r.get("stratum"):
             res = [x for x in res if x["stratum"] == r["stratum"]]
+        if r.get("clause") == "speed":
+            med = float(np.median([float("inf") if x["to_1e2"] is None else x["to_1e2"] / (40.0 * x["D"]) for x in res]))
+            print(f"replay panel stratum {r.get('stratum')}: median evaluations-to-1e-2 = {med} x 40*D")
+            return 1 if med > 1.0 else 0
         ok3 = sum(1 for x in res if x["fval"] is not None and x["fval"] <= 1e-3)
         print(f"replay panel{' stratum ' + r['stratum'] if r.get('stratum') else ''}: {ok3}/{len(res)} within 1e-3")
         return 1 if ok3 < (0.75 if r.get("stratum") else 0.9) * len(res) else 0
